@@ -53,7 +53,7 @@ def whyLoop (o : Opts) (ext : Ext) (sub : Sub) : St → Phase → List HTok → 
     match Verif.Model.Html.step o ext sub st t rest with
     | .error _ => "error"
     | .ok (st', out) =>
-      let c := classify o ext ph t out
+      let c := classify o ext st ph t out
       if c.1 then whyLoop o ext sub st' c.2.1 rest
       else match ph, t with
         | .data, .text _ _ => "text-unsafe-lt"
